@@ -1053,6 +1053,8 @@ RAW_FRAMES = {
     'nsnocomma': '2/a', 'dashfirst': '2-["e_v"]',
     'deepjson': '2' + '[' * 2000 + ']' * 2000, 'bytes': b'\x00\x01',
     'count11': '512345678901-["e_v"]',
+    # a stray binary frame (no attachment is owed) whose bytes spell a packet
+    'bytesevent': b'2["e_v","v1"]', 'bytesdisc': b'1', 'bytesconn': b'0/a,',
     # ignored: decodes, but nothing is responsible / nothing happens
     'acknum': '31', 'strpayload': '2"abc"', 'intevent': '2[5]',
     'nullevent': '2[null,1]', 'ackunknownns': '3/zzz,1["v1"]',
